@@ -124,7 +124,8 @@ class ReGen:
 
 def gen_text(rng):
     n = rng.choice([0, 1, 2, 3, 4, 5, 6, 8, 10])
-    pool = "aaabbbccc11 \n2x"
+    # class boundaries: first and last member, and the characters just outside ([0-9]: / 0 9 :   [a-c]: ` a c d   \s: space, tab)
+    pool = "aaabbbccc11 \n2x" + ("09/:`d\tZ_" if rng.random() < 0.4 else "")
     s = []
     while len(s) < n:
         if s and rng.random() < 0.3:
@@ -169,7 +170,7 @@ def run(ctx):
     quick = ctx.quick()
     rng = ctx.rng
     items = list(FIXED)
-    for _ in range(400 if quick else 6000):
+    for _ in range(400 if quick else 40000):
         g = ReGen(rng, depth=rng.choice([1, 2, 2, 3]))
         items.append(g.regex())
     cases, meta = [], []
@@ -190,8 +191,13 @@ def run(ctx):
     feats = {}
     for (v, p, groups, pat, texts), g in zip(meta, gres):
         rep = {"regex": v, "python": p}
-        if "panic" in g or g.get("hang") or g.get("oom"):
-            ctx.violation("find all @/re/ panics or does not return", dict(rep, outcome=str({k: x for k, x in g.items() if k != "stack"})[:300]))
+        if "panic" in g:
+            ctx.violation("find all @/re/ panics", dict(rep, outcome=str({k: x for k, x in g.items() if k != "stack"})[:300]))
+            continue
+        if g.get("hang") or g.get("oom"):
+            # exceeded the watchdog: exponential backtracking is not this property's business; whether the implementation returns where the model does is decided
+            # by the core comparison below (IMPL-HANG when the model finishes within its step bound, "both expensive" otherwise)
+            feats["(watchdog)"] = feats.get("(watchdog)", 0) + 1
             continue
         if "matches_list" not in g:
             ctx.violation("a regex literal of the supported subset is rejected: %s" % str(g.get("err", "?")).split("\n")[0], rep)
